@@ -44,6 +44,50 @@ def _path_leaves(F, e):
     return out
 
 
+def _path_loop_over(F, eff, top, param):
+    """Some frame on the call path of `eff` encloses its call in a `for`
+    whose iterable is, followed up through the arguments of the calls on
+    the path, the parameter `param` of `top` (unsliced, unfiltered)."""
+    path = list(eff.path)
+    for i, (fn, node) in enumerate(path):
+        n = node
+        loop = None
+        while n is not None and n is not fn.node:
+            n = getattr(n, '_parent', None)
+            if isinstance(n, ast.For):
+                loop = n
+        if loop is None:
+            continue
+        e = loop.iter
+        j = i
+        while True:
+            if any(isinstance(x, ast.Subscript) for x in ast.walk(e)) or \
+                    has_call(F.atoms(e, path[j][0]), 'if'):
+                return False
+            if path[j][0] is top:
+                return param_of(F.atoms(e, top), param)
+            if not isinstance(e, ast.Name) or j == 0:
+                return False
+            ps = Q.params(path[j][0].node)
+            if e.id not in ps:
+                return False
+            call = path[j - 1][1]
+            if not isinstance(call, ast.Call):
+                return False
+            k = ps.index(e.id)
+            if ps and ps[0] in ('self', 'cls') and isinstance(
+                    call.func, ast.Attribute):
+                k -= 1
+            arg = Q.kwarg(call, e.id)
+            if arg is None and 0 <= k < len(call.args):
+                arg = call.args[k]
+            if arg is None:
+                return False
+            e = arg
+            j -= 1
+    return False
+
+
 def check(ctx):
     repo = ctx.repo
     F = _facts(ctx)
@@ -142,6 +186,10 @@ def check(ctx):
                     loops[-1].iter))
                 ok = param_of(it, first_param) and not sliced and not \
                     has_call(it, 'if')
+            else:
+                # the loop sits in a helper between the public method and
+                # the add (rule -> _claim_targets -> _claim_target)
+                ok = _path_loop_over(F, a, f, first_param)
             ctx.ob(RULE, 'loop-covers-all|' + short, ok, a.call,
                    'the names are not claimed in a loop over all of `{}`'
                    .format(first_param))
